@@ -403,6 +403,11 @@ class CallMixin:
                  tuple(a.value for a in args if isinstance(a, SSplat)), tuple(dstar or ()))
         o.__dict__["all_args"] = list(args)
         o.node = node
+        if self.prog.is_subclass(ci, "UserList") or self.prog.is_subclass(ci, "list"):
+            # a new container: its elements are the (flattened) arguments, which may belong to somebody else
+            eo = _args_elem_origin(list(args))
+            if eo != "new":
+                o.__dict__.setdefault("meta", {})["elem_origin"] = eo
         if ci.name in self.run.cfg.interpret_ctor:
             m = self.prog.find_method(ci, "__init__")
             if m is not None:
@@ -611,6 +616,8 @@ class CallMixin:
                 o = SOpaque(("getattr", short(args[0]), short(args[1])))
                 o.__dict__["getattr"] = tuple(args)
                 return o
+            if nm == "issubclass" and len(args) == 2:
+                return run.decide(("issubclass", _ref(args[0]), short(args[1])))
             if nm == "hasattr":
                 return run.decide(("hasattr", _ref(args[0]), short(args[1])))
             if nm == "type":
@@ -1138,6 +1145,16 @@ class CallMixin:
                     return self.get_item(recv, args[0], node)  # type: ignore[arg-type]
                 return None
             if name == "copy":
+                if isinstance(recv, SObj) and recv.kinds & {"TAGATTRDICT", "JSXATTRDICT"}:
+                    # dict.copy() of an instance of a dict subclass is a plain dict (the subclass is lost)
+                    o = SObj(f"{recv.name}.copy()", {"DICT"}, origin="new")
+                    o.meta["copy_of"] = recv
+                    o.meta["copy_mode"] = "dict"
+                    vk = recv.meta.get("value_kinds")
+                    if vk:
+                        o.meta["value_kinds"] = vk
+                    run.effect("copy", recv, None, False, node)
+                    return o
                 return self.copy_(recv, False, node)
         if listish:
             if name in _LIST_MUTATORS:
@@ -1248,6 +1265,16 @@ def _is_dict_copy_idiom(fn: ast.FunctionDef) -> bool:
             tg = st.targets[0]
             base_ok = (isinstance(tg.value, ast.Attribute) and tg.value.attr == "__dict__" and not (isinstance(tg.value.value, ast.Name) and tg.value.value.id == "self")) \
                 or (isinstance(tg.value, ast.Name) and tg.value.id in dict_aliases)
+            if not base_ok and isinstance(tg.value, ast.Name):
+                # a temporary dict filled by the loop and handed to <copy>.__dict__.update(tmp) afterwards
+                tmp = tg.value.id
+                is_fresh = any(isinstance(a, (ast.Assign, ast.AnnAssign)) and any(isinstance(t, ast.Name) and t.id == tmp for t in (a.targets if isinstance(a, ast.Assign) else [a.target]))
+                               and (isinstance(a.value, ast.Dict) and not a.value.keys or (isinstance(a.value, ast.Call) and isinstance(a.value.func, ast.Name) and a.value.func.id == "dict" and not a.value.args and not a.value.keywords))
+                               for a in ast.walk(fn))
+                handed = any(isinstance(c, ast.Call) and isinstance(c.func, ast.Attribute) and c.func.attr == "update" and isinstance(c.func.value, ast.Attribute)
+                             and c.func.value.attr == "__dict__" and not (isinstance(c.func.value.value, ast.Name) and c.func.value.value.id == "self")
+                             and len(c.args) == 1 and isinstance(c.args[0], ast.Name) and c.args[0].id == tmp for c in ast.walk(fn))
+                base_ok = is_fresh and handed
             if base_ok and isinstance(tg.slice, ast.Name) and tg.slice.id == k:
                 has_loop = True
         if isinstance(st, ast.Expr) and isinstance(st.value, ast.Call) and isinstance(st.value.func, ast.Name) and st.value.func.id == "setattr" \
@@ -1378,3 +1405,48 @@ def collecting_twin(fn: ast.FunctionDef) -> ast.FunctionDef:
     _GEN_CACHE[id(tw)] = False
     _TWIN_CACHE[k] = tw
     return tw
+
+
+def _args_elem_origin(args: List[Any], depth: int = 0) -> str:
+    """"input" if some element handed to a container constructor may be an object that existed before (a parameter, a field
+    or element of one, module state), "opaque" if unknown, else "new"."""
+    worst = "new"
+
+    def up(x: str) -> None:
+        nonlocal worst
+        order = {"new": 0, "opaque": 1, "global": 2, "input": 2}
+        if order.get(x, 1) > order.get(worst, 0):
+            worst = "input" if x in ("input", "global") else x
+
+    if depth > 6:
+        return "opaque"
+    for a in args:
+        if isinstance(a, SSplat):
+            a = a.value
+        if isinstance(a, SObj):
+            if a.kinds and a.kinds <= frozenset({"LIST", "TUPLE", "TAGLIST"}):
+                up(_elem_origin(a))
+            else:
+                up(a.origin if a.origin in ("new", "input", "global") else "opaque")
+        elif isinstance(a, SNew):
+            if getattr(a, "cls_name", "") in ("TagList",):
+                up(_elem_origin(a))
+        elif isinstance(a, SList):
+            if a.mode == "concrete":
+                up(_args_elem_origin(list(a.items), depth + 1))
+            elif a.mode == "map":
+                for t in [a.elt] + list(a.__dict__.get("elt_alts", [])):
+                    if t is a.var and a.base is not None:
+                        up(_elem_origin(a.base) if isinstance(a.base, (SObj, SNew)) else getattr(a.base, "origin", "new"))
+                    else:
+                        up(_args_elem_origin([t], depth + 1))
+            elif a.mode == "view" and a.base is not None:
+                up(_elem_origin(a.base) if isinstance(a.base, (SObj, SNew)) else "opaque")
+            else:
+                ent = a.__dict__.get("entry")
+                up(_args_elem_origin(list(ent), depth + 1) if isinstance(ent, list) else "opaque")
+        elif isinstance(a, SOpaque):
+            up("new" if "copy_of" in a.__dict__ and False else "opaque")
+        elif isinstance(a, (list, tuple)):
+            up(_args_elem_origin(list(a), depth + 1))
+    return worst
